@@ -166,7 +166,8 @@ impl Selector<Vec<Val>> for Probe {
             c.get()
         });
         LOG.with(|l| l.borrow_mut().push(json!({"id": self.0, "inp": val_to(&Val::L(pop.clone())), "at": at})));
-        if call == FAIL_AT.with(Cell::get) {
+        if call == FAIL_AT.with(Cell::get) || pop.is_empty() {
+            // nothing to select from: the selector says so itself
             Err(DynErr::Leaf(self.0))
         } else {
             Ok(&pop[(at as usize) % pop.len()])
@@ -417,7 +418,7 @@ fn gen(rng: &mut impl Rng, depth: u32, sh: &Value, next_id: &mut u64) -> (Value,
     // shape-directed operators of the pipelines: select from a non-empty population, extract
     // the genome of an individual, score what a composition makes from a population
     match s(&sh["k"]) {
-        "l" if u(&sh["n"]) > 0 && rng.random_range(0..3) == 0 => {
+        "l" if (u(&sh["n"]) > 0 || rng.random_range(0..2) == 0) && rng.random_range(0..3) == 0 => {
             *next_id += 1;
             return (json!({"op": "sel", "id": *next_id}), sh["e"].clone());
         }
@@ -494,7 +495,7 @@ pub fn trace(args: &[String]) -> i32 {
         let insh = match rng.random_range(0..7) {
             0 => json!({"k": "p", "a": {"k": "a"}, "b": {"k": "a"}}),
             1 => json!({"k": "l", "n": rng.random_range(0..4), "e": {"k": "a"}}),
-            2 | 3 => json!({"k": "l", "n": rng.random_range(1..5), "e": {"k": "ind", "g": {"k": "a"}}}),
+            2 | 3 => json!({"k": "l", "n": rng.random_range(0..5), "e": {"k": "ind", "g": {"k": "a"}}}),
             4 => json!({"k": "ind", "g": {"k": "p", "a": {"k": "a"}, "b": {"k": "a"}}}),
             _ => shape_atom(),
         };
